@@ -133,8 +133,21 @@ def rearm(ctx):
 
 
 def watcher_ctor_bodies(ctx):
-    """bodies that call notify's Watcher::watch"""
-    return [(b, bb, t) for b in ctx.f.user_bodies() for bb, t in b.calls() if t["callee"]["base"].endswith("Watcher::watch") and "notify" in callee_decl(t)]
+    """[(view, bb, term)] of every call of notify's Watcher::watch, seen in the root view containing it (the error triage may live in helpers)"""
+    out = []
+    seen = set()
+    for raw in ctx.f.user_bodies():
+        for bb, t in raw.calls():
+            if t["callee"]["base"].endswith("Watcher::watch") and "notify" in callee_decl(t):
+                root = ctx.r.container(raw)
+                rv = ctx.r.V(root)
+                nb = bb if root.name == raw.name else rv.locate(raw.name, bb)
+                if nb is None:
+                    rv, nb = ctx.r.V(raw), bb
+                if (rv.name, nb) not in seen:
+                    seen.add((rv.name, nb))
+                    out.append((rv, nb, rv.term(nb)))
+    return out
 
 
 @rule("C06.MISSING-PATH-TOLERATED", ["C06"], """a declared path that does not exist yet does not make watcher construction fail: the error returned for a failed `watch` is never
@@ -158,13 +171,15 @@ def missing_path_tolerated(ctx):
         n_paths = 0
         for ee in err_edges:
             Rerr = b.dominated_by_edge(ee)
-            ret_errs = [x for (x, st) in b.aggregates("Result", "Err") if x in Rerr and st["lhs"]["local"] == 0]
+            ret_errs = [x for (x, st) in b.aggregates("Result", "Err") if x in Rerr and "anyhow::Error" in st["lhs"]["ty"]]
             tries = [tb for (tb, sb, ce, be) in try_edges(b) if tb in Rerr]
             targets = set(ret_errs) | set(tries)
             if not targets:
                 continue
             for p in enumerate_paths(b, start=ee.dst, stop_at=targets):
                 if not p or p[-1].dst not in targets and ee.dst not in targets:
+                    continue
+                if not feasible_path(b, p, start=ee.dst):
                     continue
                 n_paths += 1
                 kinds_taken = [e for e in p if e.label and e.label[0] == "variant" and path_ends(e.label[1] or "", "ErrorKind") and "notify" in (e.label[1] or "")]
